@@ -1,6 +1,6 @@
 (* C16: condition callbacks -- leaf predicates, combinators (any list length, any nesting
    depth), statelessness, BaseMonitor.to_callback. *)
-From Coq Require Import ZArith List Bool Lia.
+From Coq Require Import String ZArith List Bool Lia.
 From ND.model Require Import Callbacks.
 Import ListNotations.
 Open Scope Z_scope.
@@ -23,7 +23,7 @@ Section pred_ind_nested.
   Hypothesis HOr : forall l, Forall P l -> P (POr l).
   Hypothesis HNot : forall q, P q -> P (PNot q).
   Hypothesis HXor : forall l, Forall P l -> P (PXor l).
-  Hypothesis HRep : forall k tr n s, P (PRepeated k tr n s).
+  Hypothesis HRep : forall k tr mt n s, P (PRepeated k tr mt n s).
 
   Fixpoint pred_ind_nested (p : pred) : P p :=
     let go := fix go (l : list pred) : Forall P l :=
@@ -45,7 +45,7 @@ Section pred_ind_nested.
     | POr l => HOr l (go l)
     | PNot q => HNot q (pred_ind_nested q)
     | PXor l => HXor l (go l)
-    | PRepeated k tr n s => HRep k tr n s
+    | PRepeated k tr mt n s => HRep k tr mt n s
     end.
 End pred_ind_nested.
 
@@ -214,7 +214,7 @@ Proof.
   - intros l HF Hs. rewrite stateless_xor in Hs. rewrite step_xor, psem_xor.
     destruct (xor_loop_stateless v l HF Hs) as [E1 E2].
     destruct (xor_loop v l) as [n l']. cbn [fst snd] in *. rewrite mod2_odd, E1, E2. reflexivity.
-  - intros k tr n s Hs. discriminate Hs.
+  - intros k tr mt n s Hs. discriminate Hs.
 Qed.
 
 Corollary stateless_run : forall p vs, stateless p = true ->
